@@ -259,7 +259,7 @@ func observe(ctx context.Context, s *side) string {
 		got  []string
 	}
 	wctx, cancel := context.WithCancel(ctx)
-	ws := []*w{{name: "watch-a"}, {name: "kind-bootstrap"}, {name: "agg-tail2"}, {name: "kind-label"}, {name: "watch-a-tail1"}, {name: "agg-2terms"}, {name: "agg-id~^a"}, {name: "kind-id~^b"}, {name: "agg-id+label"}}
+	ws := []*w{{name: "watch-a"}, {name: "kind-bootstrap"}, {name: "agg-tail2"}, {name: "kind-label"}, {name: "watch-a-tail1"}, {name: "agg-2terms"}, {name: "agg-id~^a"}, {name: "kind-id~^b"}, {name: "agg-id+label"}, {name: "kind-contents+bookmark"}, {name: "agg-contents+bookmark"}, {name: "agg-bookmark-only"}, {name: "kind-contents+bookmark+label"}}
 	for _, x := range ws {
 		x.ch, x.ach = make(chan state.Event), make(chan []state.Event)
 	}
@@ -272,6 +272,11 @@ func observe(ctx context.Context, s *side) string {
 	ws[6].err = s.st.WatchKindAggregated(wctx, hx.IntKind(), ws[6].ach, state.WithBootstrapContents(true), state.WatchWithIDQuery(resource.IDRegexpMatch(regexp.MustCompile("^a"))))
 	ws[7].err = s.st.WatchKind(wctx, hx.IntKind(), ws[7].ch, state.WithBootstrapContents(true), state.WatchWithIDQuery(resource.IDRegexpMatch(regexp.MustCompile("^b"))))
 	ws[8].err = s.st.WatchKindAggregated(wctx, hx.IntKind(), ws[8].ach, state.WithKindTailEvents(3), state.WatchWithIDQuery(resource.IDRegexpMatch(regexp.MustCompile("^a"))), state.WatchWithLabelQuery(resource.LabelExists("l")))
+	// option combinations (seed c11i: each bootstrap option alone was covered, both together were not)
+	ws[9].err = s.st.WatchKind(wctx, hx.IntKind(), ws[9].ch, state.WithBootstrapContents(true), state.WithBootstrapBookmark(true))
+	ws[10].err = s.st.WatchKindAggregated(wctx, hx.IntKind(), ws[10].ach, state.WithBootstrapContents(true), state.WithBootstrapBookmark(true))
+	ws[11].err = s.st.WatchKindAggregated(wctx, hx.IntKind(), ws[11].ach, state.WithBootstrapBookmark(true))
+	ws[12].err = s.st.WatchKind(wctx, hx.IntKind(), ws[12].ch, state.WithBootstrapBookmark(true), state.WithBootstrapContents(true), state.WatchWithLabelQuery(resource.LabelExists("l")))
 	for _, x := range ws {
 		x := x
 		if x.err != nil {
